@@ -72,6 +72,8 @@ JAlg(e) ==
                        [] e.op = "get_positive_closure" -> Cat(LA, Star(LA, L), L)
                        [] e.op \in {"reverse", "invert"} -> Rev(LA)
                        [] e.op = "substitute" -> SubstLang(Gram(e.G), [t \in {e.t} |-> LB], L)
+                       \* two terminals replaced at once (simultaneous: what is substituted is not rewritten again)
+                       [] e.op = "substitute2" -> SubstLang(Gram(e.G), [t \in {e.t, e.t2} |-> IF t = e.t THEN LB ELSE Lang(Gram(e.H2), L)], L)
        IN Chk(LR = expect, e.op)
           \* the returned object must also *answer* for its own productions (cached analyses copied from an operand)
           \cup (IF Has(e, "racc") THEN Chk(ToSet(e.racc) = { w \in ToSet(e.rwords) : w \in LR }, e.op \o ".result_contains") ELSE {})
@@ -87,7 +89,7 @@ Judge(e) ==
     [] e.op = "get_reachable_symbols" -> JSet(e, ReachSyms(Gram(e.G)))
     [] e.op = "get_words" -> JWords(e)
     [] e.op \in {"remove_useless_symbols", "remove_epsilon", "eliminate_unit_productions", "to_normal_form"} -> JTrans(e)
-    [] e.op \in {"union", "or", "concatenate", "add", "get_closure", "get_positive_closure", "reverse", "invert", "substitute"} -> JAlg(e)
+    [] e.op \in {"union", "or", "concatenate", "add", "get_closure", "get_positive_closure", "reverse", "invert", "substitute", "substitute2"} -> JAlg(e)
     [] OTHER -> Fl("unknown-op")
 
 Init == l = 1 /\ out = {}
